@@ -34,6 +34,15 @@ def setup_symbolic():
             return patch._Chi2.cdf(x, k)
 
     sys.modules["kafe2.fit._base.cost"].chi2 = RecChi2
+    from vx import stubs
+
+    stubs.install_decomp_recorder()
+
+
+def setup_concrete():
+    from vx import stubs
+
+    stubs.install_decomp_recorder()
 
 
 def _prep(cx, pb):
@@ -281,6 +290,72 @@ def sc_ndf_multi(cx, members, shared_par, multi_constraint, member_constraint, f
     cx.concrete("ndf:multi", mf.ndf == want, info="ndf=%r expected %r (points %d, constraint measurements %d, parameters %d, fixed %d)" % (mf.ndf, want, npts, extra, len(names), nfix))
 
 
+def sc_gof_multi(cx, keys, shared, multi_constraint, n=2):
+    """MultiFit.goodness_of_fit / chi2_probability: sum of the member terms (or the joint chi2 with shared errors) plus
+    the cost of every constraint declared on members AND on the multi-fit"""
+    from props.C11 import Multi, _joint, _shared_source
+
+    mu = Multi(cx, keys, n=n)
+    mf = mu.mf
+    tag = "gof-multi/%s/shared-%s/multi-constraint-%s/n%d" % ("+".join(keys), shared, multi_constraint, n)
+    if multi_constraint:
+        mu.add_multi_constraint(mu.names[0])
+    mu.set_point()
+    extra = 0
+    for nm, v, u in mu.multi_constraints:
+        d = (mu.vals[nm] - v) / u
+        extra = extra + d * d
+    if shared:
+        members = [i for i, pb in enumerate(mu.members) if pb.ftype in ("xy", "indexed")][:2]
+        S = _shared_source(cx, mu, "SA", "y", members)
+        gauss, V, r = _joint(mu, S, "y", members)
+        for mn in O.leading_minors(V):
+            cx.assume(mn > 0)
+        mu.assume_pd()
+        from vx import stubs
+
+        del stubs.DECOMP[:]
+        got = mf.goodness_of_fit
+        handed = [m_ for nm_, m_ in stubs.DECOMP if nm_ == "multi:qr_decomposition"]
+        cx.concrete(tag + ":joint-decomposition-evaluated", len(handed) >= 1)
+        rest = extra
+        for i, pb in enumerate(mu.members):
+            rest = rest + (pb.constraint_cost() if i in gauss else pb.gof_oracle())
+        prem = ()
+        if handed and cx.symbolic:
+            N = len(V)
+            cx.eq(tag + ":matrix-handed-to-the-joint-decomposition", handed[-1], V)
+            Va = [[cx.abstract(handed[-1][i, j], "J%d%d" % (i, j)) for j in range(N)] for i in range(N)]
+            prem = [Va[i][j] == Va[j][i] for i in range(N) for j in range(i + 1, N)] + [mn > 0 for mn in O.leading_minors(Va)]
+            prem = [p_ for p_ in prem if not isinstance(p_, bool)]
+            want = O.quad(r, O.adj(Va)) / O.det(Va) + rest
+        else:
+            want = O.quad(r, O.adj(V)) / O.det(V) + rest
+        cx.eq(tag + ":goodness_of_fit==documented", got, want, abstract=bool(prem), premises=prem)
+    else:
+        for pb in mu.members:
+            if pb.ftype == "hist":
+                for v in pb.y:
+                    cx.assume(v > 0)
+        mu.assume_pd()
+        want = extra
+        prem = ()
+        for pb in mu.members:
+            want = want + pb.gof_oracle()
+        cx.eq(tag + ":goodness_of_fit==documented", mf.goodness_of_fit, want)
+    if all(pb.ftype in ("xy", "indexed") for pb in mu.members):
+        del _CDF_CALLS[:]
+        mf.chi2_probability
+        if cx.symbolic:
+            cx.concrete(tag + ":chi2-cdf-was-called", len(_CDF_CALLS) == 1)
+            if _CDF_CALLS:
+                x, k = _CDF_CALLS[-1]
+                cx.eq(tag + ":chi2_probability-argument==cost-without-determinant", x, want, abstract=bool(prem), premises=prem)
+                npts = sum(pb.n for pb in mu.members)
+                ncon = len(mu.multi_constraints) + sum(len(c["idx"]) for pb in mu.members for c in pb.constraints)
+                cx.concrete(tag + ":chi2_probability-ndf", k == npts + ncon - len(mu.names), info="ndf=%r" % (k,))
+
+
 def sc_twin_gof_with_det(cx):
     pb = Problem(cx, "xy", cost="chi2_fast")
     pb.add_source("SA", "s0", rho=0)
@@ -350,5 +425,8 @@ def scenarios(tier, seed):
                             continue
                         S.append(Scenario("ndf-multi/%s/shared-%s/multi-constraint-%s/member-constraint-%s/fix-%s" % ("-".join(map(str, members)), shared, mc, memc, fix), sc_ndf_multi, family="ndf/multi",
                                           params=dict(members=members, shared_par=shared, multi_constraint=mc, member_constraint=memc, fix=fix)))
+    for keys, shared, n in ((["xyab", "xybc-k"], False, 2), (["xyab", "xybc-k"], True, 1), (["xyab", "idba"], True, 1), (["idab", "hist"], False, 2), (["xyab", "xybc-k", "idba"], False, 2)):
+        for mc in (False, True):
+            S.append(Scenario("gof-multi/%s/shared-%s/multi-constraint-%s/n%d" % ("+".join(keys), shared, mc, n), sc_gof_multi, family="gof/multi", params=dict(keys=keys, shared=shared, multi_constraint=mc, n=n)))
     S.append(Scenario("twin/gof-with-determinant", sc_twin_gof_with_det, twin=True))
     return S
